@@ -11,7 +11,7 @@ PROPERTY = "C02"
 NSHARDS = {"quick": 6, "thorough": 16}
 CLAUSES = {"C02.adjacent": 60, "C02.segregation": 60, "C02.nonadjacent": 60, "C02.independence": 200,
            "C02.exact": 2000, "C02.xoprob": 100, "C02.selfing": 10}
-HOOKS_REQUIRED = ["mat_meiosis calls", "dense_meiosis calls", "constant uniform() interceptions"]
+HOOKS_REQUIRED = ["mat_meiosis calls", "dense_meiosis calls", "constant uniform() interceptions", "interp_xoprob on a matrix that already carries genetic positions"]
 RULE = ("layouts = (chromosome structure, crossover-probability vector or Haldane/Kosambi map, mating protocol) drawn from seeded "
         "classes; per layout >= 3e5 (quick) / 1e6 (thorough) logged meioses of fully heterozygous founders through the real protocols "
         "and dense_dh; exact two-sided binomial tests per interval / locus / marker pair / interval pair, Bonferroni family-wise "
@@ -289,16 +289,31 @@ def case_xoprob(ctx, c):
     g = ctx.rng("xoprob", c)
     nchr = int(g.integers(1, 5))
     mch, mph, mge, qch, qph, qge = [], [], [], [], [], []
+    extr = g.random() < 0.4     # markers beyond the ends of the map: the maps' documented default is linear extrapolation
+
+    def lin(q_, ph_, ge_):
+        q_ = numpy.asarray(q_, dtype=float)
+        out = numpy.interp(q_, ph_, ge_)
+        lo = q_ < ph_[0]; hi = q_ > ph_[-1]
+        out[lo] = ge_[0] + (q_[lo] - ph_[0]) * (ge_[1] - ge_[0]) / (ph_[1] - ph_[0])
+        out[hi] = ge_[-1] + (q_[hi] - ph_[-1]) * (ge_[-1] - ge_[-2]) / (ph_[-1] - ph_[-2])
+        return out
     for ch in range(1, nchr + 1):
         k = int(g.integers(2, 8))
-        ph = numpy.sort(g.choice(numpy.arange(1, 2000), k, replace=False)).astype("int64") * 10
+        ph = numpy.sort(g.choice(numpy.arange(30, 2000), k, replace=False)).astype("int64") * 10
         ge = numpy.cumsum(g.exponential(0.15, k))
         nq = int(g.integers(1, 9))
-        q = numpy.sort(g.integers(ph[0], ph[-1] + 1, nq)).astype("int64")   # inside the map's range: interpolation, not extrapolation
+        if extr:
+            span = int(ph[-1] - ph[0])
+            q = numpy.sort(g.integers(max(1, ph[0] - span // 3 - 50), ph[-1] + span // 3 + 50, nq)).astype("int64")
+            if g.random() < 0.6:    # several consecutive markers beyond one end
+                q = numpy.unique(numpy.r_[q, ph[-1] + g.integers(1, 200, 3), max(1, ph[0] - int(g.integers(1, 200)))]).astype("int64")
+        else:
+            q = numpy.sort(g.integers(ph[0], ph[-1] + 1, nq)).astype("int64")   # inside the map's range: interpolation only
         if g.random() < 0.4:
             q = numpy.unique(numpy.r_[q, g.choice(ph, 2)])                   # include some of the map's own markers
         mch += [ch] * k; mph += ph.tolist(); mge += ge.tolist()
-        qch += [ch] * len(q); qph += q.tolist(); qge += numpy.interp(q, ph, ge).tolist()
+        qch += [ch] * len(q); qph += q.tolist(); qge += lin(q, ph, ge).tolist()
     mch = numpy.array(mch, dtype="int64"); mph = numpy.array(mph, dtype="int64"); mge = numpy.array(mge)
     qch = numpy.array(qch, dtype="int64"); qph = numpy.array(qph, dtype="int64"); qge = numpy.array(qge)
     ix = g.permutation(len(mch))
@@ -307,9 +322,27 @@ def case_xoprob(ctx, c):
     hal = g.random() < 0.5
     fn = HaldaneMapFunction() if hal else KosambiMapFunction()
     nq = len(qch)
-    pg = DensePhasedGenotypeMatrix(numpy.zeros((2, 2, nq), dtype="int8"), vrnt_chrgrp=qch, vrnt_phypos=qph)
-    pg.group_vrnt()
     icls = "%s/%s" % ("StandardGeneticMap" if std else "ExtendedGeneticMap", "Haldane" if hal else "Kosambi")
+    if extr:
+        icls += "/markers beyond the ends of the map"
+    # state of the matrix before the map is applied: fresh; positions/probabilities supplied to the constructor; or already
+    # placed on ANOTHER map (a stretched one) by interp_genpos / interp_xoprob - the map handed over now must decide
+    hist = int(g.integers(0, 4))
+    kw = {}
+    if hist == 1:
+        kw = dict(vrnt_genpos=numpy.sort(g.uniform(0, 3, nq)), vrnt_xoprob=g.uniform(0, 0.5, nq))
+    pg = DensePhasedGenotypeMatrix(numpy.zeros((2, 2, nq), dtype="int8"), vrnt_chrgrp=qch, vrnt_phypos=qph, **kw)
+    pg.group_vrnt()
+    if hist >= 2:
+        other = StandardGeneticMap(mch[ix], mph[ix], mge[ix] * 2.5 + 0.1) if std else ExtendedGeneticMap(mch[ix], mph[ix], mph[ix], mge[ix] * 2.5 + 0.1)
+        try:
+            pg.interp_genpos(other) if hist == 2 else pg.interp_xoprob(other, fn)
+        except Exception as e:
+            ctx.raised("interp_xoprob (earlier map)", e)
+            return
+    if hist:
+        icls += "/matrix already carries positions (%s)" % ["", "constructor", "interp_genpos with another map", "interp_xoprob with another map"][hist]
+        ctx.hook("interp_xoprob on a matrix that already carries genetic positions")
     ctx.case("xoprob:" + icls, mch[ix], mph[ix], mge[ix], qch, qph, trivial=nq < 2)
     try:
         pg.interp_xoprob(gmap, fn)
